@@ -609,6 +609,41 @@ func ioOperand(fn *ssa.Function, name string) ssa.Value {
 			return fv
 		}
 	}
+	/* Kept in the receiver (a small per-call struct passed by value):
+	inputProxier{lines, w}.proxy reads p.w. */
+	if nil != fn.Signature.Recv() && 0 != len(fn.Params) {
+		var found ssa.Value
+		eachInstr(fn, func(i ssa.Instruction) {
+			if fx, ok := i.(*ssa.Field); ok && nil == found && fx.X == ssa.Value(fn.Params[0]) && typeIs(fx.Type(), "io", name) {
+				found = fx
+			}
+		})
+		if nil != found {
+			return found
+		}
+		/* The receiver captured by a goroutine literal lives in a cell:
+		the first read of the field there. */
+		for _, f := range withAnons(fn) {
+			eachInstr(f, func(i ssa.Instruction) {
+				u, ok := i.(*ssa.UnOp)
+				if !ok || nil != found || token.MUL != u.Op || !typeIs(u.Type(), "io", name) {
+					return
+				}
+				if fa, isFA := u.X.(*ssa.FieldAddr); isFA {
+					if al, isAl := resolveFree(fa.X).(*ssa.Alloc); isAl {
+						for _, st := range storesTo(al) {
+							if st.Val == ssa.Value(fn.Params[0]) {
+								found = u
+							}
+						}
+					}
+				}
+			})
+		}
+		if nil != found {
+			return found
+		}
+	}
 	return nil
 }
 
